@@ -16,19 +16,17 @@ type decryptionSecret struct {
 
 // readDecryptionSecrets parses an encryption secrets section from the given
 func (r *NgReader) readDecryptionSecretsBlock() error {
-	if _, err := r.readBytes(r.buf[:8]); err != nil {
+	if err := r.readBody(r.buf[:8]); err != nil {
 		return fmt.Errorf("could not read DecryptionSecret Header block length: %v", err)
 	}
-	r.currentBlock.length -= 8
 
 	var decryptionSecretsBlock = &pcapngDecryptionSecretsBlock{}
 	decryptionSecretsBlock.secretsType = r.getUint32(r.buf[0:4])
 	decryptionSecretsBlock.secretsLength = r.getUint32(r.buf[4:8])
-	var payload = make([]byte, decryptionSecretsBlock.secretsLength)
-	if _, err := r.readBytes(payload); err != nil {
+	payload, err := r.readBodyBytes(nil, int(decryptionSecretsBlock.secretsLength), 0)
+	if err != nil {
 		return fmt.Errorf("could not read %d bytes from DecryptionSecret payload: %v", decryptionSecretsBlock.secretsLength, err)
 	}
-	r.currentBlock.length -= uint32(len(payload))
 
 	// save decryption secrets
 	var decryptSecret decryptionSecret
